@@ -203,6 +203,12 @@ fn parse_set_safe_command(command: &mut std::str::SplitN<&str>) -> Result<Reques
         },
         None => -1,
     };
+    // -1 means "no version", nothing lower is a version a client can have read. -2 is the internal
+    // in-conflict-resolution marker: stored as it comes it skips the version check, and the key
+    // then refuses every later write
+    if version < -1 {
+        return Err(String::from("set-safe version must not be lower than -1"));
+    }
 
     let value = match rest.next() {
         Some(value) => value.replace("\n", ""),
